@@ -163,7 +163,9 @@ def run_matrix():
                                     def f(z):
                                         s = np.sum(z * z) if klass in ('Gradient', 'Hessdiag', 'Hessian') else z * z
                                         return s * (1 + 0.5j) if misuse in ('complex-f', 'both') else s
-                                    x = np.arange(1.0, dim + 1) + (0.5j if misuse in ('complex-x', 'both') else 0)
+                                    # (a small imaginary part is still an imaginary part: 1e-14 is above the default complex step)
+                                    imx = 1e-14j if (dim == 2 and full) else 0.5j
+                                    x = np.arange(1.0, dim + 1) + (imx if misuse in ('complex-x', 'both') else 0)
                                     if klass == 'Derivative' and dim == 1:
                                         x = x[0]
                                     kw = dict(method=method if hist == 'fresh' else 'central', full_output=full)
